@@ -2335,6 +2335,18 @@ _resource_tracker""")),
     M("worker-exception-sent-bare-D17", ["C04"], ["R-EXC-BREADTH"],
       (PE, """            _sendback_result(result_queue, call_item.work_id, exception=exc)""",
        """            result_queue.put(_ResultItem(call_item.work_id, exception=exc))""")),
+    # ------------------------------------- round-4 seeds
+    M("respawn-pending-counts-dispatched-only", ["C05", "C07", "C08"], ["R-RESPAWN-GUARD"],
+      (PE, """            n_pending = len(self.pending_work_items)""", """            n_pending = sum(
+                w.future.running()
+                for w in list(self.pending_work_items.values())
+            )""")),
+    M("queue-cap-reusable-from-first-max-workers", ["C08"], ["R-QUEUE-CAP"],
+      (RE, """        queue_size = 2 * cpu_count() + EXTRA_QUEUED_CALLS""", """        queue_size = 2 * self._max_workers + EXTRA_QUEUED_CALLS""")),
+    M("queue-cap-base-halved", ["C08"], ["R-QUEUE-CAP"],
+      (PE, """            queue_size = 2 * self._max_workers + EXTRA_QUEUED_CALLS""", """            queue_size = self._max_workers // 2 + EXTRA_QUEUED_CALLS""")),
+    M("queue-cap-base-constant", ["C08"], ["R-QUEUE-CAP"],
+      (PE, """            queue_size = 2 * self._max_workers + EXTRA_QUEUED_CALLS""", """            queue_size = 8 + EXTRA_QUEUED_CALLS""")),
 ]
 
 
@@ -2550,6 +2562,13 @@ BENIGN = [
                 result_queue.put(_ResultItem(call_item.work_id, exception=exc))
             except BaseException as e2:
                 result_queue.put(_ResultItem(call_item.work_id, exception=_ExceptionWithTraceback(e2)))""")),
+    B("benign-respawn-pending-excludes-cancelled", ["C05", "C07", "C08"],
+      (PE, """            n_pending = len(self.pending_work_items)""", """            n_pending = sum(
+                not w.future.cancelled()
+                for w in list(self.pending_work_items.values())
+            )""")),
+    B("benign-queue-cap-base-larger", ["C08"],
+      (PE, """            queue_size = 2 * self._max_workers + EXTRA_QUEUED_CALLS""", """            queue_size = 3 * self._max_workers + EXTRA_QUEUED_CALLS + 1""")),
     B("benign-env-overlay-copied", ["C18", "C20"],
       (PR, """        self.env = {} if env is None else env""", """        self.env = dict(env or {})""")),
     B("benign-increment-spelled-out", None,
